@@ -209,7 +209,7 @@ struct Run {
         bool cauth = (pl.cfg & 4) && su.auth != AUTH_PSK;
         desc = fmt("%s victim=%s suite=%s cauth=%d pmtu=%s", ver_name(ver), vclient ? "client" : "server", su.name, cauth, (pl.cfg & 8) ? "400" : "default");
         if (c.verbose && stats) fprintf(stderr, "case: %s\n", desc.c_str());
-        vfh_entropy_reset(5200 + pl.cfg); vfh_clock_set_ms(1000000);
+        vfh_entropy_reset(5200 + pl.cfg); vfh_clock_set_ms(1000000); if (getenv("C08_TRACE")) { vfh_trace = 1; fprintf(stderr, "=== run fill %02x\n", fill); }
         matrixSslClose(); matrixSslOpen();
         matrixDtlsSetPmtu((pl.cfg & 8) ? 400 : -1);
         c08_fill_byte = fill; c08_fill_on = 1;
@@ -244,7 +244,7 @@ struct Run {
 static void prop(Tape &t, Ctx &c) {
     Plan pl; pl.cfg = t.u8(); pl.suite = t.u8(); pl.misc = t.u8(); pl.timeouts = t.u8(); pl.s[0] = read_slot(t); pl.s[1] = read_slot(t);
     Obs a; bool second; std::string desc, mut, shape; bool any;
-    { Run r(pl, c, true); r.go(0x00); a = r.obs; second = r.want_second || ((pl.misc & 7) == 7 && (r.applied[0] || r.applied[1])); desc = r.desc; mut = r.mutdesc; shape = r.shape; any = r.applied[0] || r.applied[1]; }
+    { Run r(pl, c, true); r.go(0x00); a = r.obs; second = r.want_second || (pl.misc & 7) == 7; desc = r.desc; mut = r.mutdesc; shape = r.shape; any = r.applied[0] || r.applied[1]; }
     if (any) c.nontrivial(fmt("%u|%u", pl.cfg & 7, a.failed ? 1 : a.complete ? 2 : 0) + shape); else c.count("no-mutation-applied");
     if (!c.replaying && ((c.evaluations & 31) == 0 || c.verbose)) c.sample(desc + mut + fmt(" -> victim %s", a.complete ? "completed" : a.failed ? "error" : "waiting"));
     if (second) {
